@@ -173,7 +173,7 @@ states).  `AgreeS` adds: the two rejections are the same exception class.
 
 What is TRUE (proved below):
  * no weight file, `nside_coverage ≤ nside_out < nside_sparse`, every kind, every reduction name,
-   every pixel request: `AgreeS` (`api_dor_unweighted`), except that
+   every pixel request: `AgreeS` (`api_dor_unweighted_partial`), except that
      – a BOOLEAN map with `and` / `or` is degraded on read but REJECTED in memory
        (`api_dor_bool_andor`: proved for every boolean file — FINDING);
      – `wmean` without weights on a wide mask raises different classes (`Agree` only);
@@ -181,11 +181,14 @@ What is TRUE (proved below):
  * a weight file with another reduction than `wmean` is ignored by both paths
    (`api_dor_ignored_weightfile`).
  * `wmean` with a weight file: whenever both paths succeed the results are `SameAs`
-   (`api_dor_weighted_same`), except for F47 (float32 map, float64 weights: `hF47`).
+   (`api_dor_weighted_same_partial`), except for F47 (float32 map, float64 weights: `hF47`).
    The two paths do NOT reject the same inputs: on read only "the weight file covers every
    coverage pixel processed" (H1) is checked, in memory only "same valid pixels" (H2);
    neither implies the other (FINDINGS `weights_extra_valid`, `weights_empty_block` below);
-   under H1 ∧ H2 they agree (`api_dor_weighted`).
+   under H1 ∧ H2 they agree (`api_dor_weighted_partial`); H1 is necessary on read
+   (`api_dor_weighted_needs_H1`), H2 in memory (`api_rtd_weighted_needs_H2`).
+ * kind recovery, accepted reductions, output dtype and sentinel of every successful call:
+   `api_dor_ok_rules` (on read), `api_rtd_ok_rules` (in memory).
  * outside the range degrade-on-read always raises (`api_dor_out_of_range`) while the in-memory
    path returns a copy at `nside_out = nside_sparse` (`api_rtd_at_sparse_order`) and re-houses
    below the coverage resolution.
@@ -194,7 +197,7 @@ What is TRUE (proved below):
 open ApiDor
 
 /-- **C19, API level, no weight file** (exception classes included) -/
-theorem api_dor_unweighted {f : FileObj} (hf : f.WF) {ordOut : Nat} (hlo : f.covord ≤ ordOut)
+theorem api_dor_unweighted_partial {f : FileObj} (hf : f.WF) {ordOut : Nat} (hlo : f.covord ≤ ordOut)
     (hhi : ordOut < f.spord) (red : String) (pixels : Option (List Nat))
     (hbool : fileKind f = some (.plain .bool) → (red == "and" || red == "or") = false)
     (hty : ∀ b sg, fileKind f = some (.plain (.int b sg)) → (red == "and" || red == "or") = true →
@@ -205,7 +208,7 @@ theorem api_dor_unweighted {f : FileObj} (hf : f.WF) {ordOut : Nat} (hlo : f.cov
   dor_unweighted hf hlo hhi red pixels hbool hty hww
 
 /-- the same without the exception-class claim: `wmean` on a wide mask is not excluded -/
-theorem api_dor_unweighted_agree {f : FileObj} (hf : f.WF) {ordOut : Nat} (hlo : f.covord ≤ ordOut)
+theorem api_dor_unweighted_agree_partial {f : FileObj} (hf : f.WF) {ordOut : Nat} (hlo : f.covord ≤ ordOut)
     (hhi : ordOut < f.spord) (red : String) (pixels : Option (List Nat))
     (hbool : fileKind f = some (.plain .bool) → (red == "and" || red == "or") = false)
     (hty : ∀ b sg, fileKind f = some (.plain (.int b sg)) → (red == "and" || red == "or") = true →
@@ -225,7 +228,7 @@ theorem api_dor_ignored_weightfile (f w : FileObj) {ordOut : Nat} {red : String}
     fun hlo hhi _ hwr => rtd_ignored_weights hlo hhi hred hwr⟩
 
 /-- **C19, API level, `wmean` with a weight file: the results** -/
-theorem api_dor_weighted_same {f w : FileObj} (hf : f.WF) (hfk : f.KindOk) (hw : w.WF)
+theorem api_dor_weighted_same_partial {f w : FileObj} (hf : f.WF) (hfk : f.KindOk) (hw : w.WF)
     {ordOut : Nat} {pixels : Option (List Nat)} {a b : MapObj}
     (hL : apiDegradeOnRead f ordOut "wmean" pixels (some w) = .ok a)
     (hR : apiReadThenDegrade f ordOut "wmean" pixels (some w) = .ok b)
@@ -335,14 +338,14 @@ theorem apiRead_written {m : MapObj} (hs : m.SentOK) {md : List (String × Strin
   rw [e1, e2]
 
 /-- **C19, API level, for a written map, no weight file** -/
-theorem api_dor_written_unweighted {m : MapObj} (hm : m.Ok) (md : List (String × String))
+theorem api_dor_written_unweighted_partial {m : MapObj} (hm : m.Ok) (md : List (String × String))
     {ordOut : Nat} (hlo : m.covord ≤ ordOut) (hhi : ordOut < m.spord) (red : String)
     (pixels : Option (List Nat))
     (hbool : fileKind (apiWrite m md) = some (.plain .bool) → (red == "and" || red == "or") = false)
     (hty : (red == "and" || red == "or") = true → ∀ v ∈ m.st.sp.toList, v.isBoolV = false) :
     Agree (apiDegradeOnRead (apiWrite m md) ordOut red pixels none)
       (apiReadThenDegrade (apiWrite m md) ordOut red pixels none) :=
-  api_dor_unweighted_agree (Ok.apiWrite md hm).1 hlo hhi red pixels hbool (fun _ _ _ hao => hty hao)
+  api_dor_unweighted_agree_partial (Ok.apiWrite md hm).1 hlo hhi red pixels hbool (fun _ _ _ hao => hty hao)
 
 /-- **C19, API level, for written map and weight map, whole-file read** (PARTIAL in H1, H2):
     H1 — the weight map covers every coverage pixel of the map; H2 — same valid pixels -/
@@ -516,7 +519,7 @@ theorem below_coverage :
   decide +kernel
 
 /-- **F47**: float32 map, float64 weight file — both paths succeed, float32 on read, float64 in
-    memory: `hF47` of `api_dor_weighted_same` cannot be dropped -/
+    memory: `hF47` of `api_dor_weighted_same_partial` cannot be dropped -/
 theorem f47 : ∃ a b,
     apiDegradeOnRead (apiWrite exF32 []) 0 "wmean" none (some (apiWrite exW [])) = .ok a ∧
     apiReadThenDegrade (apiWrite exF32 []) 0 "wmean" none (some (apiWrite exW [])) = .ok b ∧
@@ -594,22 +597,22 @@ example :
       apiReadThenDegrade (apiWrite exF32 []) 0 "median" none none = .ok b ∧ a.SameAs b) := by
   obtain ⟨hB, hI, _, hW, hR, hF, _⟩ := ex_ok
   refine ⟨?_, ?_, ?_, ?_, ?_, ?_⟩
-  · exact sameAs_of_agree (api_dor_written_unweighted hI [] (by decide +kernel) (by decide +kernel)
+  · exact sameAs_of_agree (api_dor_written_unweighted_partial hI [] (by decide +kernel) (by decide +kernel)
       "sum" _ (fun h => by revert h; decide +kernel) (fun h => by revert h; decide +kernel))
       (by decide +kernel)
-  · exact sameAs_of_agree (api_dor_written_unweighted hI [] (by decide +kernel) (by decide +kernel)
+  · exact sameAs_of_agree (api_dor_written_unweighted_partial hI [] (by decide +kernel) (by decide +kernel)
       "or" _ (fun h => by revert h; decide +kernel) (fun _ => by decide +kernel))
       (by decide +kernel)
-  · exact sameAs_of_agree (api_dor_written_unweighted hW [] (by decide +kernel) (by decide +kernel)
+  · exact sameAs_of_agree (api_dor_written_unweighted_partial hW [] (by decide +kernel) (by decide +kernel)
       "or" _ (fun h => by revert h; decide +kernel) (fun _ => by decide +kernel))
       (by decide +kernel)
-  · exact sameAs_of_agree (api_dor_written_unweighted hR [] (by decide +kernel) (by decide +kernel)
+  · exact sameAs_of_agree (api_dor_written_unweighted_partial hR [] (by decide +kernel) (by decide +kernel)
       "mean" _ (fun h => by revert h; decide +kernel) (fun h => by revert h; decide +kernel))
       (by decide +kernel)
-  · exact sameAs_of_agree (api_dor_written_unweighted hB [] (by decide +kernel) (by decide +kernel)
+  · exact sameAs_of_agree (api_dor_written_unweighted_partial hB [] (by decide +kernel) (by decide +kernel)
       "sum" _ (fun _ => by decide +kernel) (fun h => by revert h; decide +kernel))
       (by decide +kernel)
-  · exact sameAs_of_agree (api_dor_written_unweighted hF [] (by decide +kernel) (by decide +kernel)
+  · exact sameAs_of_agree (api_dor_written_unweighted_partial hF [] (by decide +kernel) (by decide +kernel)
       "median" _ (fun h => by revert h; decide +kernel) (fun h => by revert h; decide +kernel))
       (by decide +kernel)
 
